@@ -72,13 +72,16 @@ static void resolve(pid_t t, long dirfd, unsigned long addr, char *out, size_t m
 }
 
 // returns the name of the mutating syscall or NULL; fills p1/p2
+static int log_reads = 0; // --reads: read-only opens are logged too (as "ropen"; never counted, killed or failed)
 static const char *classify(pid_t t, struct user_regs_struct *r, char *p1, char *p2) {
   long nr = r->orig_rax; p1[0] = p2[0] = 0;
   int wr = O_WRONLY | O_RDWR | O_CREAT | O_TRUNC | O_APPEND;
   switch (nr) {
-  case SYS_openat: if (!(r->rdx & wr)) return NULL; resolve(t, (int)r->rdi, r->rsi, p1, PATH_MAX);
+  case SYS_openat: if (!(r->rdx & wr)) { if (!log_reads) return NULL; resolve(t, (int)r->rdi, r->rsi, p1, PATH_MAX); return "ropen"; }
+    resolve(t, (int)r->rdi, r->rsi, p1, PATH_MAX);
     snprintf(p2, PATH_MAX, "flags=%s%s%s%s", (r->rdx & O_CREAT) ? "C" : "", (r->rdx & O_EXCL) ? "X" : "", (r->rdx & O_TRUNC) ? "T" : "", (r->rdx & O_APPEND) ? "A" : ""); return "open";
-  case SYS_open: if (!(r->rsi & wr)) return NULL; resolve(t, AT_FDCWD, r->rdi, p1, PATH_MAX);
+  case SYS_open: if (!(r->rsi & wr)) { if (!log_reads) return NULL; resolve(t, AT_FDCWD, r->rdi, p1, PATH_MAX); return "ropen"; }
+    resolve(t, AT_FDCWD, r->rdi, p1, PATH_MAX);
     snprintf(p2, PATH_MAX, "flags=%s%s%s", (r->rsi & O_CREAT) ? "C" : "", (r->rsi & O_EXCL) ? "X" : "", (r->rsi & O_TRUNC) ? "T" : ""); return "open";
   case SYS_creat: resolve(t, AT_FDCWD, r->rdi, p1, PATH_MAX); snprintf(p2, PATH_MAX, "flags=CT"); return "open";
   case SYS_write: case SYS_pwrite64: case SYS_writev:
@@ -110,6 +113,7 @@ int main(int argc, char **argv) {
     if (!strcmp(argv[a], "--log") && a + 1 < argc) { logpath = argv[a + 1]; a += 2; }
     else if (!strcmp(argv[a], "--kill") && a + 1 < argc) { killat = atol(argv[a + 1]); a += 2; }
     else if (!strcmp(argv[a], "--nofail") && a + 1 < argc) { nofail = argv[a + 1]; a += 2; }
+    else if (!strcmp(argv[a], "--reads")) { log_reads = 1; a += 1; }
     else if (!strcmp(argv[a], "--fail") && a + 2 < argc) { failat = atol(argv[a + 1]); failerrno = atoi(argv[a + 2]); a += 3; }
     else { fprintf(stderr, "sysmon: bad argument %s\n", argv[a]); return 2; }
   }
@@ -135,7 +139,9 @@ int main(int argc, char **argv) {
       if (insys[i]) {
         if (ptrace(PTRACE_GETREGS, t, 0, &r) == 0) {
           const char *name = classify(t, &r, p1, p2);
-          if (name) {
+          if (name && !strcmp(name, "ropen")) {
+            if (lg) { fprintf(lg, "0\t%s\tropen\t%s\t\n", tgid_of(t) == child ? "ROOT" : "CHILD", p1); fflush(lg); }
+          } else if (name) {
             int root = tgid_of(t) == child;
             if (root) count++;
             if (lg) { fprintf(lg, "%ld\t%s\t%s\t%s\t%s\n", root ? count : 0, root ? "ROOT" : "CHILD", name, p1, p2); fflush(lg); }
